@@ -522,6 +522,8 @@ def run_c13(chk, prog):
         chk.extra["sign_paths" + tag] = len(tab.paths)
         reassembly_rules(chk, tab, "C13.O2")
     chk.floor("C13.O1", "abstract vectors compared", total, 2 * 13 * 20)
+    # "stored pages are always complete pages of the configured size": what Page::from_bytes accepts is part of the clause
+    include_page_rules(chk, prog, "C13.page")
     chk.note_analysed("functions", [tab.fn["name"]] + sorted(tab.ev.stats["inlined"]))
     for r in tab.rows[:6]:
         chk.sample({"conditions": {k: sorted(map(str, v)) if isinstance(v, (set, frozenset)) else str(v) for k, v in r["feats"].items()}, "effect": {k: str(v) for k, v in eff_project(r["effect"]).items()} if "panic" not in r["effect"] else r["effect"]})
@@ -563,6 +565,12 @@ def reassembly_rules(chk, tab, rule):
 
 
 # ---- C14 ----------------------------------------------------------------------------------
+def include_page_rules(chk, prog, tag):
+    import p_page
+    n = chk.include(tag, p_page.run_c07, prog, keep=lambda r: r.startswith("C07.O3") or r.startswith("C07.O1"))
+    chk.floor(tag, "obligations on Page::from_bytes / Page::new (what a complete page of the configured size is)", n, 10)
+
+
 def run_c14(chk, prog):
     chk.notes.append("A1/A2 on the extracted sign table, reference-free: (O1) every path that replies or writes for an addressed message kind took the "
                      "address-equality edge; (O2) every reply carries self.address; (O3) every path that writes for an unaddressed kind (SendData, DataChunksSent) is "
